@@ -23,7 +23,12 @@ import RuxModel.Model.Dispatch
                                               wh:<code> rr:<id> rq:<id> gt:<k> dp kc  (<k> <v> <e> <b> hex)
               `kc` (the handler keeps a `Context.Copy()`) is nothing the request can observe: the token is dropped
               here, the harness checks the kept copy with an oracle
-  panic value pv = s.<hex> | e.<hex> | i.<int> | rn | ri
+              `sh:<id>` (route handlers only: `c.SetHandlers(route <id>.Handlers())`) replaces the chain the request
+              is running; that is outside the model: the token is dropped, and a request to a route with such a handler
+              is answered `unsupported` (the harness checks it with the fresh-router oracle only). Every OTHER request
+              is answered as always: a later request must not notice what became of the pooled context.
+  panic value pv = s.<hex> | e.<hex> | i.<int> | rn | ri | h.<name>.<hex> | w.<name>.<hex>
+              (h/w: an error sentinel of net/http, io, context, bare or wrapped; for the model an error with that text)
   answer to serve:  <ret | panic:<pv> | unsupported> t=<trace> l=<writer log> ;; pr=0
 -/
 namespace Rux.Drv.DispatchE
@@ -116,6 +121,8 @@ def parsePVal (s : String) : Option PVal :=
     | ["s", h] => (Bytes.ofHex h).map .str
     | ["e", h] => (Bytes.ofHex h).map .err
     | ["i", n] => (intOfStr? n).map .int
+    | ["h", _, h] => (Bytes.ofHex h).map .err
+    | ["w", _, h] => (Bytes.ofHex h).map .err
     | _ => none
 
 def parseSAct (s : String) : Option SAct :=
@@ -139,7 +146,15 @@ def parseAct (s : String) : Option Act :=
   if s = "nx" then some .next else (parseSAct s).map .s
 
 /-- the action tokens of a handler without the `kc` tokens (not a step of the model) -/
-def actToks (s : String) : List String := (s.splitOn ",").filter (· ≠ "kc")
+def isSH (t : String) : Bool :=
+  match t.splitOn ":" with
+  | ["sh", n] => n.toNat?.isSome && n.length ≤ 6 && n.all Char.isDigit
+  | _ => false
+
+/-- the handler token contains a `sh:<id>` action -/
+def hasSH (s : String) : Bool := (s.splitOn ",").any isSH
+
+def actToks (s : String) : List String := (s.splitOn ",").filter (fun t => t ≠ "kc" && !isSH t)
 
 def parseSHandler (s : String) : Option (List SAct) :=
   if s = "-" then some [] else (actToks s).mapM parseSAct
@@ -170,6 +185,7 @@ structure DState where
   cfg : Cfg := { rid := 0, hook := none, onError := none }
   pool : List Ctx := []
   seq : Nat := 0
+  shRoutes : List Nat := []    -- routes with a `sh` action in one of their handlers (outside the model)
 
 def parseShape : String → Option Shape
   | "s" => some .s | "d1" => some .d1 | "d2" => some .d2 | "ir" => some .ir | _ => none
@@ -254,11 +270,29 @@ def dispatchStep' (s : DState) : List String → DState × String
     | _, _, _ => (s, "bad-op")
   | _ => (s, "bad-op")
 
+/-- `sh` actions: legal in `route` lines only; a request to such a route is outside the model -/
+def dispatchStepSH (s : DState) (toks : List String) : DState × String :=
+  match toks with
+  | "route" :: id :: _ :: _ :: hs =>
+    let r := dispatchStep' s toks
+    if r.2 = "ok" && hs.any hasSH then
+      match id.toNat? with
+      | some i => ({ r.1 with shRoutes := i :: r.1.shRoutes }, "ok")
+      | none => r
+    else r
+  | ["serve", "r", id, v1, v2] =>
+    match id.toNat?, Bytes.ofHex v1, Bytes.ofHex v2 with
+    | some i, some _, some _ =>
+      if s.shRoutes.contains i && (s.routes.any (·.id = i)) then ({ s with seq := s.seq + 1 }, "unsupported")
+      else dispatchStep' s toks
+    | _, _, _ => dispatchStep' s toks
+  | _ => if (toks.drop 1).any hasSH then (s, "bad-op") else dispatchStep' s toks
+
 def dispatchStep (s : DState) : List String → DState × String
   | ["new", _caching, mna] => ({ started := true, mna := mna = "1" }, "ok")
   | ["nilpanic"] => (s, "unsupported")     -- panic(nil) is outside the model (known finding K-C09-panicnil)
-  | "serveh" :: rest => if s.started then dispatchStep' s ("serve" :: rest) else (s, "bad-op")
-  | toks => if s.started then dispatchStep' s toks else (s, "bad-op")
+  | "serveh" :: rest => if s.started then dispatchStepSH s ("serve" :: rest) else (s, "bad-op")
+  | toks => if s.started then dispatchStepSH s toks else (s, "bad-op")
 
 def dispatchEngine : Engine := { σ := DState, init := {}, step := dispatchStep }
 
